@@ -265,9 +265,14 @@ class Vector(Base):
 
     def dot(self, other):
         out = np.zeros(self.shape)
+        unit = self.unit * other.unit
         for c1, c2 in zip(self._xyz.values(), other._xyz.values()):
-            out += (c1 * c2).values
-        return Array(values=out, unit=self.unit * other.unit)
+            # The product converts compatible operands to a common unit: the
+            # result must be labelled with the unit the values are actually in.
+            product = c1 * c2
+            out += product.values
+            unit = product.unit
+        return Array(values=out, unit=unit)
 
     def cross(self, other):
         x = self.y * other.z
